@@ -5,7 +5,7 @@ import MsqProofs.Props.C02T
 Built NEXT to `TP` (Lemmas/TParse0.lean … Props/C02T.lean), whose definitions and statements are unchanged.
 
 * `toksE2 d ch e` — the token-level printer extended to qualified columns `t.c`, the wildcards `*` / `t.*`, normal function calls
-  `[s.]f(a₁, …, aₙ)`, aggregate calls `AGG([DISTINCT] a₁, …)`, both forms of `CASE`, and `[NOT] IN (v₁, …, vₙ)`; on the old
+  `[s.]f(a₁, …, aₙ)`, aggregate calls `AGG([DISTINCT] a₁, …)`, both forms of `CASE`, and `[NOT] IN (v₁, …, vₙ)` (the value list itself never gets a redundant bracket: `a IN ((1, 2))` is something else); on the old
   constructors it is `TP.toksE` clause for clause (`toksE2_eq`).  Brackets by `PR.wrap`'s rule (`TP.wrapT`) with the bounds of
   `PR.prE`: call arguments, CASE operands: never wrapped by the rule (bound 14); IN values: bound 8 (`prList8`).
 * `Frag2 d e` — the fragment (a `Bool`), `Frag2 ⊇ Frag` (`frag_sub`).
@@ -39,7 +39,7 @@ def toksE2 (d : Gen.D) (ch : Expr → Bool) : Expr → List Tok
   | .unary o e => opTok (cval o) :: wrapT (ch e) e 2 (toksE2 d ch e)
   | .compute l o r =>
       wrapT (ch l) l (PR.lvl (.compute l o r)) (toksE2 d ch l) ++ opTok (cval o) :: wrapT (ch r) r (PR.lvl (.compute l o r) - 1) (toksE2 d ch r)
-  | .kw k n l r => wrapT (ch l) l 9 (toksE2 d ch l) ++ (kwToks k n ++ wrapT (ch r) r 8 (toksE2 d ch r))
+  | .kw k n l r => wrapT (ch l) l 9 (toksE2 d ch l) ++ (kwToks k n ++ wrapT (ch r && k != .in_) r 8 (toksE2 d ch r))
   | .between n b f t =>
       wrapT (ch b) b 9 (toksE2 d ch b) ++ ((if n then [opTok "NOT"] else []) ++ opTok "BETWEEN" :: (wrapT (ch f) f 8 (toksE2 d ch f) ++ opTok "AND" :: wrapT (ch t) t 8 (toksE2 d ch t)))
   | .compare o l r => wrapT (ch l) l 10 (toksE2 d ch l) ++ opTok (cmpVal o) :: wrapT (ch r) r 9 (toksE2 d ch r)
@@ -201,7 +201,9 @@ theorem toksE2_eq (d : Gen.D) (ch : Expr → Bool) : ∀ n e, TP.sz e ≤ n → 
     case literal v => simp [toksE2, toksE]
     case unary o x => simp only [toksE2, toksE, ih x (by omega) hf.2]
     case compute l o r => simp only [toksE2, toksE, ih l (by omega) hf.1.2, ih r (by omega) hf.2]
-    case kw k n0 l r => simp only [toksE2, toksE, ih l (by omega) hf.1.2, ih r (by omega) hf.2]
+    case kw k n0 l r =>
+      have hk : (k != KwKind.in_) = true := by simpa using hf.1.1
+      simp only [toksE2, toksE, ih l (by omega) hf.1.2, ih r (by omega) hf.2, hk, Bool.and_true]
     case between n0 b f t => simp only [toksE2, toksE, ih b (by omega) hf.1.1, ih f (by omega) hf.1.2, ih t (by omega) hf.2]
     case compare o l r => simp only [toksE2, toksE, ih l (by omega) hf.1.2, ih r (by omega) hf.2]
     case not_ x => simp only [toksE2, toksE, ih x (by omega) hf]
